@@ -2,14 +2,15 @@
 C05 — Control-plane interpretation is independent of segmentation and interleaving.
 
 * Inside one reader future the interpretation is independent of segmentation: Props/C15
-  (async = one-shot for every chunking and `Pending` pattern).
-* `C05_full` — the property for the worker's select loop — is FALSE of the pinned code:
-  `C05_full_false` exhibits a close capsule cut after three bytes with one other event
-  (a datagram, say) between the pieces: the termination is never reported. This is recorded as
-  a known finding (D5); the check replays the witness on the implementation.
-* `C05_partial` — what does hold: whenever no other branch completes while a reader holds
-  progress (in particular: frames delivered whole, cuts at frame boundaries, or no other event
-  between the pieces of a frame), the outcome is that of the unsegmented stream.
+  (async = one-shot for every chunking and `Pending` pattern, frames and typestates).
+* `C05_full` — the property for the worker's select loop: for EVERY list of pieces, with or
+  without another event after each piece, the session stream and the control stream are
+  interpreted exactly as the unsegmented bytes. It rests on the structural fact, read from the
+  source on every run, that a frame read in progress is stored in the stream holder and not in
+  the future the select loop drops (`source_keeps_reads_in_progress`; `fix:` D5).
+* `dropping_reads_violates` — why that fact matters: with the read inside `run`'s future (the
+  pinned tree) a close capsule cut after three bytes with one other event between the pieces is
+  never reported. `tear_free_is_harmless_either_way`: what held even then.
 -/
 import WtVerif.Driver.Select
 import WtVerif.Lemmas.Worker
@@ -18,11 +19,12 @@ import WtVerif.Props.C04
 namespace Props.C05
 open Select
 
-/-- the full property, for the session stream and the control stream -/
-def C05_full : Prop :=
+/-- the full property for a given structure of the readers, for the session stream and the
+control stream -/
+def FullFor (persist : Bool) : Prop :=
   ∀ (ps : List Piece) (t : Tail),
-    sessionOutcome ps t = Worker.connectRun (whole ps) t ∧
-    controlOutcome ps t = Worker.controlRun (whole ps) t none
+    sessionOutcome persist ps t = Worker.connectRun (whole ps) t ∧
+    controlOutcome persist ps t = Worker.controlRun (whole ps) t none
 
 theorem leftoverOf_suffix : ∀ (fuel : Nat) (bs : Bytes), ∃ c, bs = c ++ leftoverOf fuel bs := by
   intro fuel
@@ -61,33 +63,60 @@ theorem avail_split (bs : Bytes) :
 
 /-- **What holds**: if no reader future is dropped while it holds progress, the restarting
 readers interpret exactly the bytes of the stream. -/
-theorem effective_eq_whole_of_tearFree : ∀ (ps : List Piece) (done carry : Bytes),
-    TearFree ps carry → effectiveFrom ps done carry = done ++ carry ++ whole ps := by
-  intro ps
+theorem effective_eq_whole : ∀ (persist : Bool) (ps : List Piece) (done carry : Bytes),
+    (persist = true ∨ TearFree ps carry) → effectiveFrom persist ps done carry = done ++ carry ++ whole ps := by
+  intro persist ps
   induction ps with
   | nil => intro done carry _; simp [effectiveFrom, whole]
   | cons p ps ih =>
     intro done carry htf
-    simp only [TearFree] at htf
-    obtain ⟨hev, hrest⟩ := htf
     simp only [effectiveFrom]
     have hsplit := avail_split (carry ++ p.bytes)
-    by_cases hdrop : (p.otherBranchAfter && !(leftover (carry ++ p.bytes)).isEmpty) = true
-    · rw [if_pos hdrop]
+    by_cases hdrop : (!persist && p.otherBranchAfter && !(leftover (carry ++ p.bytes)).isEmpty) = true
+    · exfalso
       simp only [Bool.and_eq_true, Bool.not_eq_true', List.isEmpty_eq_false_iff] at hdrop
-      exact absurd (hev hdrop.1) hdrop.2
+      rcases htf with hp | htf
+      · rw [hp] at hdrop; cases hdrop.1.1
+      · simp only [TearFree] at htf
+        exact absurd (htf.1 hdrop.1.2) hdrop.2
     · rw [if_neg hdrop]
-      rw [ih _ _ hrest]
+      rw [ih _ _ (htf.elim Or.inl (fun h => Or.inr (by simp only [TearFree] at h; exact h.2)))]
       simp only [whole, List.map_cons, List.flatten_cons]
       rw [List.append_assoc done, hsplit]
       simp [List.append_assoc]
 
-theorem C05_partial (ps : List Piece) (t : Tail) (h : TearFree ps []) :
-    sessionOutcome ps t = Worker.connectRun (whole ps) t ∧
-    controlOutcome ps t = Worker.controlRun (whole ps) t none := by
-  have : effective ps = whole ps := by
+/-- **The structure the proof rests on**, read from the current source: both control-plane
+readers keep their read in progress outside the future the select loop drops. -/
+theorem source_keeps_reads_in_progress :
+    Generated.CONTROL_READ_PERSISTS_SETTINGS = true ∧ Generated.CONTROL_READ_PERSISTS_CONNECT = true := by decide
+
+/-- **C05 for the select loop**: for every way the peer's bytes on the control stream and on
+the session stream are cut into pieces, and whatever other events complete between the pieces,
+the streams are interpreted exactly as if every frame had arrived whole with nothing in between. -/
+theorem C05_full : FullFor true := by
+  intro ps t
+  have : effective true ps = whole ps := by
     unfold effective
-    rw [effective_eq_whole_of_tearFree ps [] [] h]; simp
+    rw [effective_eq_whole true ps [] [] (Or.inl rfl)]; simp
+  simp [sessionOutcome, controlOutcome, this]
+
+/-- … with the structure the translator read for each of the two streams -/
+theorem C05_session_stream (ps : List Piece) (t : Tail) :
+    sessionOutcome Generated.CONTROL_READ_PERSISTS_CONNECT ps t = Worker.connectRun (whole ps) t := by
+  rw [source_keeps_reads_in_progress.2]; exact (C05_full ps t).1
+
+theorem C05_control_stream (ps : List Piece) (t : Tail) :
+    controlOutcome Generated.CONTROL_READ_PERSISTS_SETTINGS ps t = Worker.controlRun (whole ps) t none := by
+  rw [source_keeps_reads_in_progress.1]; exact (C05_full ps t).2
+
+/-- what held even with the reads inside `run`'s future: if no read is dropped while it holds
+part of a frame, the outcome is that of the unsegmented stream -/
+theorem tear_free_is_harmless_either_way (persist : Bool) (ps : List Piece) (t : Tail) (h : TearFree ps []) :
+    sessionOutcome persist ps t = Worker.connectRun (whole ps) t ∧
+    controlOutcome persist ps t = Worker.controlRun (whole ps) t none := by
+  have : effective persist ps = whole ps := by
+    unfold effective
+    rw [effective_eq_whole persist ps [] [] (Or.inr h)]; simp
   simp [sessionOutcome, controlOutcome, this]
 
 /-- in particular: without any other event between the pieces the result never depends on
@@ -109,14 +138,14 @@ def capsuleFrame : Bytes := [0x00, 0x0a, 0x68, 0x43, 0x07, 0x01, 0x02, 0x03, 0x0
 
 def tornPieces : List Piece := [⟨capsuleFrame.take 3, true⟩, ⟨capsuleFrame.drop 3, false⟩]
 
-theorem torn_effective : effective tornPieces = [0x43, 0x07, 0x01, 0x02, 0x03, 0x04, 0x62, 0x79, 0x65] := by decide
+theorem torn_effective : effective false tornPieces = [0x43, 0x07, 0x01, 0x02, 0x03, 0x04, 0x62, 0x79, 0x65] := by decide
 
 theorem whole_reports_close : Worker.connectRun (whole tornPieces) .open_ = some (.appClosed 0x01020304 [0x62, 0x79, 0x65]) := by
   have : whole tornPieces = Frame.write ⟨.data, Capsule.encodeClose 0x01020304 [0x62, 0x79, 0x65], none⟩ ++ [] := by decide
   rw [this]
   exact Props.C04.capsule_reported_exactly _ _ _ _ (by decide) (by decide) (by decide)
 
-theorem torn_never_reports : sessionOutcome tornPieces .open_ = none := by
+theorem torn_never_reports : sessionOutcome false tornPieces .open_ = none := by
   unfold sessionOutcome
   rw [torn_effective]
   -- `43 07 01 …`: type 0x307 (two-byte varint `43 07`), length 1, payload `02`: an unknown frame,
@@ -132,14 +161,17 @@ theorem torn_never_reports : sessionOutcome tornPieces .open_ = none := by
   rw [Worker.afterIgnorable_eq, h2]
   simp [Worker.endOf]
 
-/-- **The full property is false of the pinned code.** -/
-theorem C05_full_false : ¬ C05_full := by
+/-- **Why the structural fact matters**: with the read inside the dropped future the property fails. -/
+theorem dropping_reads_violates : ¬ FullFor false := by
   intro h
   have := (h tornPieces .open_).1
   rw [torn_never_reports, whole_reports_close] at this
   cases this
 
-/-! ### non-vacuity of the partial theorem: the same capsule cut at the same place, no event -/
+/-! ### non-vacuity: the same capsule, same cut, same event, on the current structure -/
+example : sessionOutcome true tornPieces .open_ = some (.appClosed 0x01020304 [0x62, 0x79, 0x65]) := by
+  rw [(C05_full tornPieces .open_).1]; exact whole_reports_close
+
 example : TearFree [⟨capsuleFrame.take 3, false⟩, ⟨capsuleFrame.drop 3, false⟩] [] :=
   segmentation_alone_is_harmless _ _ (by decide)
 example : TearFree [⟨capsuleFrame, true⟩, ⟨[0x21, 0x00], true⟩] [] :=
